@@ -8,6 +8,7 @@ import numpy as np
 from common import *
 import ops
 from props import c01
+import revchecks
 
 RULE = ('cases = (operation, D, P, shapes, coefficients) from ops.py generators; every D\' in 1..D-1 re-evaluated on '
         'truncated inputs; non-trivial = D>=2 and some non-zero higher input coefficient; distinct by case hash')
@@ -42,13 +43,15 @@ def truncation_fails(case):
 
 
 def run_case(ctx, case):
+    if 'prog' in case:
+        return revchecks.truncation_adjoint_fails(case)
     if 'fn' in case:       # a C01-style kernel case
         return c01.run_case(ctx, case)
     return truncation_fails(case)
 
 
 def run(ctx):
-    names = sorted(ops.OPS)
+    names = sorted(n for n in ops.OPS if 'no-trunc' not in ops.OPS[n]['tags'])
     n = len(names) * (6 if ctx.tier == 'quick' else 80)
     for i in range(n):
         name = names[i % len(names)]
@@ -63,6 +66,18 @@ def run(ctx):
         if len(ctx.samples) < 3 and ops.nontrivial(case):
             ctx.samples.append(to_jsonable(case))
         f = truncation_fails(case)
+        if f:
+            ctx.report(case, 'failure', f)
+    # reverse sweep: low-order adjoint coefficients do not depend on the truncation degree
+    for i in range(120 if ctx.tier == 'quick' else 1500):
+        case = revchecks.make_case(ctx.rng, ctx.tier, D=ctx.rng.randint(2, 4 if ctx.tier == 'quick' else 6))
+        ctx.evaluations += 1
+        ctx.count('reverse-sweep')
+        h = canon_hash(to_jsonable(case))
+        if h not in ctx.hashes:
+            ctx.hashes.add(h)
+            ctx.nontrivial += 1
+        f = revchecks.truncation_adjoint_fails(case)
         if f:
             ctx.report(case, 'failure', f)
     # the tie of the kernels the theorems talk about: model vs implementation at D and D'
@@ -82,3 +97,6 @@ def run(ctx):
             r = c01.run_case(ctx, sub)
             if r:
                 ctx.report(sub, 'failure', r)
+
+
+replay_case = run_case
